@@ -26,11 +26,11 @@ Lemma hr_event_frame : forall s i e ok,
   watchers (hr_event s i e ok) = watchers s /\ created (hr_event s i e ok) = created s /\
   closed (hr_event s i e ok) = closed s /\ bad (hr_event s i e ok) = bad s.
 Proof.
-  intros. unfold hr_event.
+  intros. unfold hr_event. destruct (closed s) eqn:Hcl; [auto|].
   destruct ((r_state s =? st_hr) && negb (r_epoch s =? e)); [auto|].
   destruct (r_state s =? st_hr); cbn.
-  - destruct (nth_error (reserve s) i) as [[o|]|]; cbn; auto; destruct ok; cbn; auto.
-  - destruct (nth_error (repeat None (length (pools s))) i) as [[o|]|]; cbn; auto; destruct ok; cbn; auto.
+  - destruct (nth_error (reserve s) i) as [[o|]|]; cbn; try destruct ok; cbn; repeat split; auto.
+  - destruct (nth_error (repeat None (length (pools s))) i) as [[o|]|]; cbn; try destruct ok; cbn; repeat split; auto.
 Qed.
 
 (* ------------------------------------------------------------------ C17_close_stops *)
@@ -86,8 +86,8 @@ Proof.
   - destruct (hr_event_frame s i e ok) as [H1 [H2 [H3 _]]]. rewrite H1, H2, H3. split; [exact Hc | lia].
   - destruct (count_some (reserve s) =? length (pools s))%nat; cbn; split; auto; lia.
   - cbn. split; [exact Hc | lia].
-  - cbn. split; [reflexivity | lia].
-  - cbn. split; [exact Hc | lia].
+  - destruct (cprog s) as [|c rest]; [split; [exact Hc | lia]|].
+    destruct c; cbn; (split; [first [reflexivity | exact Hc] | lia]).
   - split; [exact Hc | lia].
 Qed.
 
@@ -119,8 +119,7 @@ Proof.
   - destruct (hr_event_frame s i e ok) as [H1 [H2 _]]. unfold all_exited. rewrite H1, H2. auto.
   - destruct (count_some (reserve s) =? length (pools s))%nat; cbn; auto.
   - cbn. auto.
-  - cbn. auto.
-  - cbn. auto.
+  - destruct (cprog s) as [|c rest]; [auto|]. destruct c; cbn; auto.
   - auto.
 Qed.
 
@@ -271,6 +270,7 @@ Proof.
     cbn. apply negb_false_iff in Hc. apply Nat.eqb_eq in Hc. rewrite Hc, Nat.eqb_refl. reflexivity.
   - apply hr_event_frame.
   - destruct (count_some (reserve s) =? length (pools s))%nat; reflexivity.
+  - destruct (cprog s) as [|c rest]; [reflexivity|]. destruct c; reflexivity.
 Qed.
 
 Theorem not_twice_full : forall n evs, bad (r_run evs (r_init n)) = 0%nat.
@@ -338,20 +338,6 @@ Record Quiesced (s : rstate) : Prop := {
   q_pools : forall i, (i < length (pools s))%nat -> obj_alive s (pool_of s i) = false;
   q_reserve : Forall (fun r => r = None) (reserve s) }.
 
-Theorem close_end_quiesces : forall s, r_enabled s CloseEnd = true -> Quiesced (r_step s CloseEnd).
-Proof.
-  intros s He. unfold r_step. rewrite He. cbn [r_enabled] in He. apply andb_prop in He. destruct He as [_ Hx].
-  cbn [r_apply]. constructor; cbn.
-  - unfold all_exited. rewrite forallb_forall in Hx. apply Forall_forall. intros w Hw.
-    specialize (Hx w Hw). destruct (w_pc w); try discriminate. reflexivity.
-  - intros i Hi. unfold obj_alive, pool_of. cbn.
-    change (alive_of (kill_reserved (reserve s) (kill_reserved (map Some (pools s)) (objs s))) (nth i (pools s) 0%nat) = false).
-    destruct (alive_of (kill_reserved (reserve s) (kill_reserved (map Some (pools s)) (objs s))) (nth i (pools s) 0%nat)) eqn:A; [|reflexivity].
-    apply kill_reserved_alive_le in A.
-    rewrite kill_reserved_dead in A; [discriminate|]. apply in_map. apply nth_In. exact Hi.
-  - apply Forall_repeat. reflexivity.
-Qed.
-
 Lemma quiesced_step : forall s ev, Quiesced s ->
   Quiesced (r_step s ev) /\ created (r_step s ev) = created s /\ length (objs (r_step s ev)) = length (objs s).
 Proof.
@@ -390,15 +376,22 @@ Proof.
       destruct (alive_of (kill_reserved (reserve s) (objs s)) (nth i (pools s) 0%nat)) eqn:A; [|reflexivity].
       apply kill_reserved_alive_le in A. unfold alive_of in A. rewrite Qp in A. discriminate.
     + apply Forall_repeat. reflexivity.
-  - split; [|auto]. constructor; cbn; auto.
-  - (* CloseEnd again *)
-    split; [|split; [reflexivity | cbn; rewrite !kill_reserved_length; reflexivity]].
-    constructor; cbn; auto.
-    + intros i Hi. specialize (Qp i Hi). unfold obj_alive, pool_of in *. cbn.
-      change (alive_of (kill_reserved (reserve s) (kill_reserved (map Some (pools s)) (objs s))) (nth i (pools s) 0%nat) = false).
-      destruct (alive_of (kill_reserved (reserve s) (kill_reserved (map Some (pools s)) (objs s))) (nth i (pools s) 0%nat)) eqn:A; [|reflexivity].
-      apply kill_reserved_alive_le in A. apply kill_reserved_alive_le in A. unfold alive_of in A. rewrite Qp in A. discriminate.
-    + apply Forall_repeat. reflexivity.
+  - (* CloseStep: whatever statement of Close runs in this state, it stays quiesced *)
+    destruct (cprog s) as [|c rest]; [auto|].
+    assert (KP : forall rs, forall i, (i < length (pools s))%nat ->
+                 alive_of (kill_reserved rs (objs s)) (nth i (pools s) 0%nat) = false).
+    { intros rs i Hi. specialize (Qp i Hi). unfold obj_alive, pool_of in Qp.
+      destruct (alive_of (kill_reserved rs (objs s)) (nth i (pools s) 0%nat)) eqn:A; [|reflexivity].
+      apply kill_reserved_alive_le in A. unfold alive_of in A. rewrite Qp in A. discriminate. }
+    destruct c; cbn.
+    + split; [|auto]. constructor; cbn; auto.
+    + split; [|auto]. constructor; cbn; auto.
+    + split; [|split; [reflexivity | rewrite !kill_reserved_length; reflexivity]]. constructor; cbn; auto.
+      * intros i Hi. specialize (Qp i Hi). unfold obj_alive, pool_of in *. cbn.
+        change (alive_of (kill_reserved (reserve s) (kill_reserved (map Some (pools s)) (objs s))) (nth i (pools s) 0%nat) = false).
+        destruct (alive_of (kill_reserved (reserve s) (kill_reserved (map Some (pools s)) (objs s))) (nth i (pools s) 0%nat)) eqn:A; [|reflexivity].
+        apply kill_reserved_alive_le in A. apply kill_reserved_alive_le in A. unfold alive_of in A. rewrite Qp in A. discriminate.
+      * apply Forall_repeat. reflexivity.
   - auto.
 Qed.
 
@@ -470,3 +463,95 @@ Proof.
     cbn [r_apply]. rewrite Hs, Z.eqb_refl. reflexivity. }
   rewrite E. apply IH with (id := id); assumption.
 Qed.
+
+(* ------------------------------------------------------------------ Close returned: depends on the ORDER of its statements *)
+(* where Close is in its body, and what has been achieved by then (for the order of the code) *)
+Definition CloseInv (s : rstate) : Prop :=
+  match cprog s with
+  | [CCancel; CWait; CCloseAll] => True
+  | [CWait; CCloseAll] => closed s = true
+  | [CCloseAll] => closed s = true /\ all_exited s
+  | [] => closed s = true /\ Quiesced s
+  | _ => False
+  end.
+
+Lemma step_cprog : forall s ev, ev <> CloseStep -> cprog (r_step s ev) = cprog s.
+Proof.
+  intros s ev Hne. unfold r_step. destruct (r_enabled s ev); [|reflexivity].
+  destruct ev; cbn [r_apply]; try reflexivity; try congruence.
+  - destruct (r_state s =? st_hr); reflexivity.
+  - destruct (r_state s =? st_hr); reflexivity.
+  - destruct (negb (pool_of s id =? w_pool (watcher_of s id))%nat); [reflexivity|].
+    destruct (negb ok); [reflexivity|]. destruct (nth_error (objs s) (w_pool (watcher_of s id))); reflexivity.
+  - unfold hr_event. destruct (closed s); [reflexivity|].
+    destruct ((r_state s =? st_hr) && negb (r_epoch s =? e)); [reflexivity|].
+    destruct (r_state s =? st_hr); cbn.
+    + destruct (nth_error (reserve s) i) as [[o|]|]; cbn; auto; destruct ok; cbn; auto.
+    + destruct (nth_error (repeat None (length (pools s))) i) as [[o|]|]; cbn; auto; destruct ok; cbn; auto.
+  - destruct (count_some (reserve s) =? length (pools s))%nat; reflexivity.
+Qed.
+
+Lemma step_closeinv : forall s ev, CloseInv s -> CloseInv (r_step s ev).
+Proof.
+  intros s ev H.
+  destruct (match ev with CloseStep => true | _ => false end) eqn:Hcs.
+  - (* the next statement of Close *)
+    destruct ev; try discriminate. unfold r_step. destruct (r_enabled s CloseStep) eqn:He; [|exact H].
+    unfold CloseInv in *. cbn [r_enabled] in He. cbn [r_apply].
+    destruct (cprog s) as [|c1 [|c2 [|c3 [|c4 r]]]] eqn:Hp; try discriminate;
+      try (destruct c1; try contradiction); try (destruct c2; try contradiction);
+      try (destruct c3; try contradiction); cbn.
+    + (* [CCloseAll]: every watcher has returned; one critical section closes pools and parked pools *)
+      destruct H as [Hc Hx]. split; [exact Hc|]. constructor; cbn; auto.
+      * intros i Hi. unfold obj_alive, pool_of. cbn.
+        change (alive_of (kill_reserved (reserve s) (kill_reserved (map Some (pools s)) (objs s))) (nth i (pools s) 0%nat) = false).
+        destruct (alive_of (kill_reserved (reserve s) (kill_reserved (map Some (pools s)) (objs s))) (nth i (pools s) 0%nat)) eqn:A; [|reflexivity].
+        apply kill_reserved_alive_le in A.
+        rewrite kill_reserved_dead in A; [discriminate|]. apply in_map. apply nth_In. exact Hi.
+      * apply Forall_repeat. reflexivity.
+    + (* [CWait; CCloseAll]: wg.Wait returns only when every watcher has returned *)
+      split; [exact H|]. unfold all_exited. rewrite forallb_forall in He. apply Forall_forall. intros w Hw.
+      specialize (He w Hw). destruct (w_pc w); try discriminate. reflexivity.
+    + (* the whole body: cancel *) reflexivity.
+  - (* anything else: Close does not move *)
+    assert (Hne : ev <> CloseStep) by (intro X; subst; discriminate).
+    unfold CloseInv in *. rewrite (step_cprog s ev Hne).
+    destruct (cprog s) as [|c1 [|c2 [|c3 [|c4 r]]]] eqn:Hp; try contradiction;
+      try (destruct c1; try contradiction); try (destruct c2; try contradiction);
+      try (destruct c3; try contradiction).
+    + destruct H as [Hc Q]. split; [apply (close_step s ev Hc) | apply (quiesced_step s ev Q)].
+    + destruct H as [Hc Hx]. split; [apply (close_step s ev Hc) | apply (exited_step s ev Hx)].
+    + apply (close_step s ev H).
+    + exact I.
+Qed.
+
+Lemma init_closeinv : forall n, CloseInv (r_init n).
+Proof. intro n. exact I. Qed.
+
+(* for ALL histories: whenever Close has returned (its body is exhausted) every watcher has returned,
+   every pool's session is closed and nothing is parked — and by close_quiesced_forever it stays so *)
+Theorem close_returned : forall n evs,
+  cprog (r_run evs (r_init n)) = [] -> Quiesced (r_run evs (r_init n)).
+Proof.
+  intros n evs Hp.
+  pose proof (r_run_inv CloseInv step_closeinv evs (r_init n) (init_closeinv n)) as H.
+  unfold CloseInv in H. rewrite Hp in H. apply H.
+Qed.
+
+(* a hot-restart event handled once cancelFunc has been called changes nothing *)
+Theorem hr_event_after_cancel : forall s i e ok, closed s = true -> r_step s (HREvent i e ok) = s.
+Proof.
+  intros s i e ok Hc. unfold r_step. destruct (r_enabled s (HREvent i e ok)); [|reflexivity].
+  cbn [r_apply]. unfold hr_event. rewrite Hc. reflexivity.
+Qed.
+
+(* the former witness against the unrestricted statement: a hot-restart event arriving on a parked
+   session while Close is between cancel and its closing section *)
+Definition close_race_history : list revent :=
+  [HREvent 0 5 true; HRTick; CloseStep; WLoad 0; WakeCtx 0; CloseStep; HREvent 0 6 true; CloseStep].
+
+(* the seeded order: pools closed BEFORE waiting for the watchers.  A watcher past its timer stores the
+   replacement after the pools were closed; Close returns with a live session in the pool *)
+Definition seeded_close_prog : list cstep := [CCancel; CCloseAll; CWait].
+Definition inflight_history : list revent :=
+  [WLoad 0; SessionLost 0; WakeClose 0; TimerFires 0; CloseStep; CloseStep; Compare 0 true; WLoad 0; WakeCtx 0; CloseStep].
